@@ -106,7 +106,7 @@ func (x *Exec) checkEnsures(st *State, fr *Frame, res Val) {
 		}
 	}
 	for _, en := range c.Ensures {
-		if x.assumedOnly(en) || clauseHasTag(en, "assumed") {
+		if x.assumedOnly(en) || clauseHasTag(en, "assumed") || (clauseHasTag(en, "slow") && x.tier != "thorough") {
 			continue
 		}
 		// split top-level conjunctions (also under an implies) into separate, smaller obligations
@@ -298,7 +298,13 @@ func (x *Exec) assumedOnly(cl *Clause) bool {
 	if x.onlyTag == "" || len(cl.Tags) == 0 {
 		return false
 	}
-	if len(cl.Tags) == 1 && cl.Tags[0] == "assumed" {
+	real := 0
+	for _, t := range cl.Tags {
+		if t != "assumed" && t != "slow" {
+			real++
+		}
+	}
+	if real == 0 {
 		return false
 	}
 	return !clauseHasTag(cl, x.onlyTag)
